@@ -170,6 +170,25 @@ CLAIMED["C20"] = dict(
          "(numerical); floating-point unitarity to 1e-14 (the algebraic formula is exact).",
     ref="3 C20")
 
+CLAIMED["C04"] = dict(
+    category="other",
+    technique="symbolic folding of the 34 mass-matrix functions into exact polynomial matrices, compared with "
+              "an independent oracle (Hessian of the MSSM scalar potential by polynomial differentiation, "
+              "quantum-number formulae for sfermions); structural rules for tachyon flags and ordering",
+    text="Every entry (88) of every tree-level mass matrix equals, as a polynomial identity in the Lagrangian "
+         "parameters, an independent statement of the MSSM: sfermions from (T3, Y) and the soft/Yukawa/"
+         "trilinear structure, the CP-even/CP-odd/charged Higgs matrices as the Hessian of the scalar potential "
+         "plus Feynman-gauge Goldstone terms, neutralino/chargino/W/Z/fermions in standard form; the three "
+         "generations of each sector coincide up to the index; the tadpoles are the potential's gradient and "
+         "the EWSB elimination solves them identically; a tachyon is flagged exactly under m^2 < 0 before "
+         "sqrt|m^2| in every sector the a_mu code reads; Goldstones are reordered last to index 0. A wrong "
+         "D-term coefficient in one generation is invisible at the pinned test points; here it is a polynomial "
+         "mismatch.",
+    note=TRUST + "The MSSM conventions (GUT-normalised g1, superfield hypercharges, Feynman gauge) are written "
+         "in rules_c04.spec_matrices. Not decided: everything about the numerical eigen-decomposition "
+         "(unitarity, ordering, non-negativity, sum rules as numbers).",
+    ref="3 C04")
+
 NOT_APPLICABLE = {
     "C03": "numerical agreement of one-loop results with an independent higher-precision evaluation over all "
            "parameter points: depends on eigen-decomposition values; no code-shape clause of its own "
